@@ -773,6 +773,8 @@ pub fn payloads(g: &mut G, tag: &str) -> Vec<(&'static str, Vec<u8>)> {
         ("sgr", format!("\x1b[31m{}-red\x1b[0m\n\x1b[1;32m{}\x1b[m\n", tag, tag).into_bytes()),
         ("divider-like", format!("~~~~~~~~EXECDIVIDER::x::0::0\n{}\n", tag).into_bytes()),
         ("divider-prefix-only", format!("{} ~~~~~~~~EXECDIVIDER::\n", tag).into_bytes()),
+        ("divider-like-unterminated", format!("{}\n~~~~~~~~EXECDIVIDER::x::1::7", tag).into_bytes()),
+        ("divider-like-bad-numbers", format!("~~~~~~~~EXECDIVIDER::{}::notanumber::x\n", tag).into_bytes()),
         ("placeholders", format!("{{shell_expression}} {{persist_state}} {{name}} {} $?\n", tag).into_bytes()),
         ("ws-unterminated", format!("{}-a\n  {}-indented-last", tag, tag).into_bytes()),
         ("ws-only-unterminated", format!("{}-a\n \t ", tag).into_bytes()),
